@@ -28,7 +28,7 @@ PROP = "C03"
 #        rt_out  at_out  rt_jac  at_jac  rt_tot  at_tot
 TOL = {
     "plain": (1e-10, 1e-13, 1e-10, 1e-13, 1e-9, 1e-12),
-    "coupled": (1e-8, 1e-10, 1e-8, 1e-10, 1e-7, 1e-10),
+    "coupled": (1e-8, 1e-10, 1e-8, 1e-10, 3e-7, 3e-10),  # totals: worst observed ratio at 1e-7 was 0.09 (Z11); 3x more room
 }
 
 FAULT_KINDS = ("fd_excursion", "cs_excursion", "scribble", "abort")  # "abort" covers injected AnalysisError and solver starvation
